@@ -19,6 +19,9 @@ pub struct DiffRef {
     /// F1-class stage: only patterns with a nullable unbounded loop, all of them interpreted by the VM;
     /// compared with the reference only where the Perl rule and the VM's empty-iteration rule agree
     pub f1_undisputed: bool,
+    /// group conditions may name groups that are not open / do not exist: if the crate accepts such a
+    /// pattern at all, the condition must behave as "has not matched"
+    pub free_cond_refs: bool,
 }
 
 pub struct DP {
@@ -96,7 +99,11 @@ impl PatProp for DiffRef {
         } else if let Some(k) = known_class(ctx, n) {
             return Prep::Excluded(k);
         }
-        if !n.refs_valid(false) {
+        if self.free_cond_refs {
+            if !n.backrefs_valid() {
+                return Prep::Skip("domain:reference-to-unclosed-group");
+            }
+        } else if !n.refs_valid(false) {
             return Prep::Skip("domain:reference-to-unclosed-group");
         }
         let re = match engine::build(pat) {
@@ -137,7 +144,7 @@ impl PatProp for DiffRef {
     }
 
     fn extra(&self) -> serde_json::Value {
-        serde_json::json!({"omit_empty_no": self.omit_empty_no})
+        serde_json::json!({"omit_empty_no": self.omit_empty_no, "free_cond_refs": self.free_cond_refs, "f1_undisputed": self.f1_undisputed})
     }
 
     fn eval(&self, _ctx: &RunCtx, p: &DP, _n: &Node, t: &str, pos: usize) -> Verdict {
